@@ -4,6 +4,7 @@
 # (vacuity guard: a unit that silently extracts nothing cannot pass).
 UNITS = {
     'quorum': {'template': 'units/quorum/unit.rs', 'serves': ['C03', 'C06', 'C09'], 'min_verified': 30},
+    'finality': {'template': 'units/finality/unit.rs', 'serves': ['C08'], 'min_verified': 30},
     'slot_state': {'template': 'units/slot_state/unit.rs', 'serves': ['C03', 'C04', 'C06'], 'min_verified': 88},
 }
 
